@@ -72,25 +72,36 @@ func zzIsIntFormat(f string) bool {
 
 // zzNew builds a characteristic of the given format with optional symbolic bounds and an
 // initial value of the declared type inside the bounds.
-func zzNew(format string, bounded bool) *Characteristic {
+func zzNew(format string, mode int) *Characteristic {
+	hasMin, hasMax := mode == 1 || mode == 2, mode == 1 || mode == 3
 	c := NewCharacteristic("zz")
 	c.Format = format
 	c.Perms = PermsAll()
 	switch {
 	case format == FormatFloat:
 		init := zzFinite("init-f")
-		if bounded {
-			lo, hi := zzFinite("min-f"), zzFinite("max-f")
-			verif.Assume(verif.And(lo <= hi, verif.And(lo <= init, init <= hi)))
-			c.MinValue, c.MaxValue = lo, hi
+		lo, hi := zzFinite("min-f"), zzFinite("max-f")
+		verif.Assume(lo <= hi)
+		if hasMin {
+			verif.Assume(lo <= init)
+			c.MinValue = lo
+		}
+		if hasMax {
+			verif.Assume(init <= hi)
+			c.MaxValue = hi
 		}
 		c.Value = init
 	case zzIsIntFormat(format):
 		init := int(verif.I64("init-i"))
-		if bounded {
-			lo, hi := int(verif.I64("min-i")), int(verif.I64("max-i"))
-			verif.Assume(verif.And(lo <= hi, verif.And(lo <= init, init <= hi)))
-			c.MinValue, c.MaxValue = lo, hi
+		lo, hi := int(verif.I64("min-i")), int(verif.I64("max-i"))
+		verif.Assume(lo <= hi)
+		if hasMin {
+			verif.Assume(lo <= init)
+			c.MinValue = lo
+		}
+		if hasMax {
+			verif.Assume(init <= hi)
+			c.MaxValue = hi
 		}
 		c.Value = init
 	case format == FormatBool:
@@ -102,15 +113,18 @@ func zzNew(format string, bounded bool) *Characteristic {
 }
 
 // zzCheck asserts the declared-type-and-range invariant and that the typed getter works.
-func zzCheck(c *Characteristic, bounded bool, when string) {
+func zzCheck(c *Characteristic, when string) {
 	switch {
 	case c.Format == FormatFloat:
 		f, ok := c.Value.(float64)
 		verif.Assert(ok, "float-format-holds-float64"+when)
 		if ok {
 			verif.Assert(verif.And(f == f, f-f == 0), "float-value-is-finite"+when) // NaN/Inf are not JSON-encodable
-			if bounded {
-				verif.Assert(verif.And(c.MinValue.(float64) <= f, f <= c.MaxValue.(float64)), "float-within-min-max"+when)
+			if lo, has := c.MinValue.(float64); has {
+				verif.Assert(lo <= f, "float-not-below-min"+when)
+			}
+			if hi, has := c.MaxValue.(float64); has {
+				verif.Assert(f <= hi, "float-not-above-max"+when)
 			}
 			p := verif.Panics(func() { _ = (&Float{c}).GetValue() })
 			verif.Assert(!p, "nopanic-float-getter"+when)
@@ -119,8 +133,11 @@ func zzCheck(c *Characteristic, bounded bool, when string) {
 		i, ok := c.Value.(int)
 		verif.Assert(ok, "int-format-holds-int"+when)
 		if ok {
-			if bounded {
-				verif.Assert(verif.And(c.MinValue.(int) <= i, i <= c.MaxValue.(int)), "int-within-min-max"+when)
+			if lo, has := c.MinValue.(int); has {
+				verif.Assert(lo <= i, "int-not-below-min"+when)
+			}
+			if hi, has := c.MaxValue.(int); has {
+				verif.Assert(i <= hi, "int-not-above-max"+when)
 			}
 			p := verif.Panics(func() { _ = (&Int{c}).GetValue() })
 			verif.Assert(!p, "nopanic-int-getter"+when)
@@ -144,11 +161,12 @@ func zzCheck(c *Characteristic, bounded bool, when string) {
 // [min,max], and the typed getter works.
 func Harness_C12_q_type_and_range() {
 	format := zzFormats[verif.Choice("format", len(zzFormats))]
-	bounded := false
+	mode := 0 // 0 no bounds, 1 min and max, 2 min only, 3 max only
 	if format == FormatFloat || zzIsIntFormat(format) {
-		bounded = verif.Choice("bounded", 2) == 1
+		mode = verif.Choice("bounds", 4)
 	}
-	c := zzNew(format, bounded)
+	verif.Fact("bounds", []string{"none", "min+max", "min-only", "max-only"}[mode])
+	c := zzNew(format, mode)
 	v, kind := zzJSONValue("v")
 	// conversion and clamping do not depend on the origin of the update; the quick tier
 	// drives the remote entry point only (local updates: thorough tier, C09 and C11)
@@ -170,7 +188,7 @@ func Harness_C12_q_type_and_range() {
 	if p1 {
 		return
 	}
-	zzCheck(c, bounded, "")
+	zzCheck(c, "")
 	if kind != "array" && kind != "object" && kind != "number" {
 		verif.Reach("end")
 		return
@@ -180,6 +198,6 @@ func Harness_C12_q_type_and_range() {
 	if p2 {
 		return
 	}
-	zzCheck(c, bounded, "-after-repeat")
+	zzCheck(c, "-after-repeat")
 	verif.Reach("end")
 }
